@@ -314,14 +314,20 @@ def apply_op(cfg, h, end, op, res, rep, judge_it=True):
         res.tally('interpretation_only:valid-prefix-of-a-bad-batch-not-stored')
     # ---- bytes
     a, z = start * HS, (start + added) * HS
+    # what lies beyond the stored part must be untouched - or gone: the statement speaks about the chain up
+    # to the end of the connected batch only, so an implementation that drops the tail it wrote below is fine
+    tail_kept = after[z:] == before[z:] and len(after) == max(len(before), z)
+    tail_dropped = added > 0 and len(after) == z
     if after[:a] != before[:a]:
         bad({'kind': 'store-bytes', 'part': 'below-start-changed'}, 'bytes below start changed')
     elif after[a:z] != raw[:added * HS]:
         bad({'kind': 'store-bytes', 'part': 'written-differs-from-batch'}, 'stored bytes differ from the batch prefix')
-    elif after[z:] != before[z:] or len(after) != max(len(before), z):
+    elif not (tail_kept or tail_dropped):
         bad({'kind': 'store-bytes', 'part': 'beyond-written-changed'}, 'bytes beyond the stored part changed')
-    elif n_after != max(n_before, start + added if added else 0):
+    elif n_after != (max(n_before, start + added if added else 0) if tail_kept else start + added):
         bad({'kind': 'store-bytes', 'part': 'length'}, f'len() is {n_after}')
+    elif not tail_kept:
+        res.tally('tail-above-connected-batch-dropped')
     # ---- invariant: genesis .. end of the most recently connected batch is a reference-valid chain
     if added:
         new_end = start + added
@@ -333,7 +339,7 @@ def apply_op(cfg, h, end, op, res, rep, judge_it=True):
                 f'stored chain 0..{new_end - 1} is invalid at height {fi} ({rule})')
         if start < n_before and after[a:z] != before[a:z]:
             res.witness('fork_overwrote_lower_height')
-            if new_end < n_before:
+            if new_end < n_after:
                 res.witness('shorter_fork_left_stale_tail')
         if len(batch) > 1 and added == len(batch):
             res.witness('multi_header_batch_stored_whole')
@@ -390,7 +396,7 @@ def bfs(ctx, cfg_name, N, depth, root):
     """Level-synchronous parallel BFS; returns (states, deepest history, first history)."""
     res = ctx.res
     cfg = Config.get(cfg_name)
-    h, end, _, _ = replay_history(cfg, root, res)
+    h, end, _, _ = replay_history(cfg, root, res, rep={'part': 'a', 'config': cfg_name, 'history': root})
     seen = {canon(h, end)}
     res.distinct_add('states', (cfg_name, canon(h, end)))
     frontier = [(root, canon(h, end))]
@@ -411,8 +417,8 @@ def bfs(ctx, cfg_name, N, depth, root):
                         seen.add(key)
                         res.distinct_add('states', (cfg_name, key))
                         nxt.append((hist + [op], key))
-            res.setmax(f'bfs_depth_{cfg_name}', level + 1)
-            res.count(f'states_at_depth_{level + 1}_{cfg_name}', len(nxt))
+            res.setmax(f'bfs_depth_{cfg_name}_{N}', level + 1)
+            res.count(f'new_states_at_depth_{level + 1}_{cfg_name}_{N}', len(nxt))
             if nxt:
                 deepest = nxt[-1][0]
             frontier = nxt
@@ -675,7 +681,8 @@ def reopen_case(cfg, n, image, res, demand_damage_detection=True):
             if tip:
                 sig = {'kind': 'tip-damage', 'field': field}
                 if field == 'prev_block_hash':
-                    sig['tip'] = 'inside-repair-batch' if tip_examined else 'first-of-repair-batch'
+                    sig['tip'] = ('inside-repair-batch' if tip_examined else
+                                  'first-header-above-checkpoint' if d == A else 'first-of-repair-batch')
                 bad(sig, f'damaged tip header {d} ({field}, byte {image[2]}) is loaded as if intact')
             elif d == n - 2 and not tip_examined:
                 bad({'kind': 'damage-below-unexamined-tip', 'field': field},
@@ -788,7 +795,7 @@ def run(ctx):
                                               'states': nstates}
         first = root + [alphabet(cfg_name, N)[0]]
         viol = [v['replay']['history'] for v in res.violations.values()
-                if v['replay'].get('part') == 'a' and v['replay'].get('config') == cfg_name]
+                if (v['replay'] or {}).get('part') == 'a' and v['replay'].get('config') == cfg_name]
         determinism_check(ctx, cfg_name, [first, deepest] + viol)
         res.sample({'config': cfg_name, 'deepest_history': deepest})
         phases[f'connect_{cfg_name}_{N}'] = round(time.time() - t0, 1)
@@ -832,15 +839,18 @@ def run(ctx):
         items.append((name, n, 'single', ['intact']))
         items.append((name, n, 'single', ['absent']))
     # every 1-byte overwrite above the last checkpoint, for every stored length L
-    Ls = [1, 2, 3, 36, 37, 38, 72, 73, 74, 80] if q else list(range(1, LMAX + 1))
-    masks = [0x01] if q else [0x01, 0xff]
+    boundary_Ls = [1, 2, 3, 36, 37, 38, 72, 73, 74, 80]      # around the 36-header repair batches
+    Ls = boundary_Ls if q else list(range(1, LMAX + 1))
+    masks = [0x01] if q else [0x01, 0xff]                    # thorough: the second mask at the boundary lengths
     for L in Ls:
         for hs in chunked(range(1000, 1000 + L), 8):
-            items.append(('ckpt', 1000 + L, 'ovw', hs, masks, True))
+            items.append(('ckpt', 1000 + L, 'ovw', hs, masks if L in boundary_Ls else masks[:1], True))
     # configurations without any checkpoint: "above the last checkpoint" is not defined - observed, tallied
     items.append(('easy', 5, 'ovw', list(range(5)), [0x01], False))
     items.append(('main', 20, 'ovw', [0, 10, 19], [0x01], False))
-    items.sort(key=lambda it: (it[2] != 'ovw', it[1]), reverse=True)
+    # cuts first (the long items), then overwrites from the shortest stored length up, so that the violation
+    # kept per signature is the simplest one
+    items.sort(key=lambda it: (it[2] == 'ovw', it[1]))
     ctx.pmap(work_crash, items)
     drop_scratch()
     phases['crash_repair'] = round(time.time() - t0, 1)
@@ -850,7 +860,8 @@ def run(ctx):
                                         ['rule', 4, 'wrong-bits-valid-pow'], ['ret', 5, 'rs']]})
     res.sample({'crash_image_examples': [['cut', 112000 + 37], ['ovw', 1036, 108, 1]]})
     bounds.update({'checkpoint_cases': len(cases) + len(cases2), 'stored_lengths_above_checkpoint': Ls,
-                   'overwrite_masks': masks, 'byte_cuts_inside_checkpointed_chunk': 'selected headers + every boundary' if q else 'every byte'})
+                   'overwrite_masks': masks, 'second_mask_only_at_stored_lengths': boundary_Ls,
+                   'byte_cuts_inside_checkpointed_chunk': 'selected headers + every boundary' if q else 'every byte'})
     ctx.meta.update(
         rule=('(a) BFS over histories of connect(start, batch): alphabet = every contiguous slice of the good chain '
               'prefix, slices offered one height off, every 1..3-header batch with one header altered in each of the 7 '
